@@ -1,3 +1,6 @@
 import Drv.Util
 import Drv.C17
 import Drv.Corr
+import Drv.C10
+import Drv.C16
+import Drv.C06
